@@ -645,6 +645,7 @@ def run_compile_jobs(jobs, workdir, parallel=32):
     """All compile jobs through `parallel` shell scripts that each run their share one after the other.  (Spawning every
     compiler from this process serialises on fork/exec latency on a loaded machine: 0.2 s per job whatever the pool size.)
     Returns [(job, first diagnostic line or None, detail)]."""
+    global CC_TIMEOUT
     import shlex
     workdir.mkdir(parents=True, exist_ok=True)
     tus = {}
@@ -679,6 +680,14 @@ def run_compile_jobs(jobs, workdir, parallel=32):
         first = "timeout" if rc == 124 else next((l for l in lines if re.search(r"\b(error|warning)\b", l)), lines[0] if lines else f"exit {rc}")
         results.append((job, first, "\n".join(lines[:12])))
     shutil.rmtree(workdir, ignore_errors=True)
+    # a job that ran into the time limit while 32 shards shared an overloaded machine: once more, alone, with a long limit
+    for k, (job, first, detail) in enumerate(results):
+        if first == "timeout":
+            saved, CC_TIMEOUT = CC_TIMEOUT, 900
+            try:
+                results[k] = run_compile(job)
+            finally:
+                CC_TIMEOUT = saved
     return results
 
 
@@ -1097,7 +1106,9 @@ def run(ctx: common.Ctx):
             if c.only and not any(x in u.name for x in ([c.only] if isinstance(c.only, str) else c.only)):
                 continue
             # quick tier: the corpus meets every configuration; a generated universe the three basic ones and every second of the rest
-            if quick and u.origin != "corpus" and c.ident not in ("c/default", "c/little", "cpp/c++17", "py/default") and (ci + ui) % 2:
+            # (round 2: 48 configurations — in the thorough tier the generated universes meet the basic ones and two of every three others)
+            if u.origin != "corpus" and c.ident not in ("c/default", "c/little", "cpp/c++17", "py/default") and (
+                    (ci + ui) % 2 if quick else (ci + ui) % 3 == 0):
                 continue
             if quick and getattr(u, "light", False) and c.ident not in LIGHT_CONFIGS and not named:
                 continue
